@@ -125,6 +125,33 @@ class HeldAtoms:
         return getattr(self._yp, name)
 
 
+class UserVariable(Variable):
+    """a caller's own term class (terms are dispatched on by isinstance in the engine)"""
+
+
+class UserFunctor(Functor):
+    pass
+
+
+class UserTerms:
+    """the engine as seen by a caller that builds its terms from its own subclasses of the term classes"""
+
+    def __init__(self, yp):
+        self._yp = yp
+
+    def variable(self):
+        return UserVariable()
+
+    def functor(self, name, args):
+        return UserFunctor(name, list(args))
+
+    def listpair(self, head, tail):
+        return UserFunctor('.', [head, tail])
+
+    def __getattr__(self, name):
+        return getattr(self._yp, name)
+
+
 def atom_names(t, acc=None):
     acc = set() if acc is None else acc
     if t[0] == 'a':
